@@ -962,6 +962,29 @@ func c16Corpus(r *fw.Rec, s corpus.Source) {
 			}
 		}
 	}
+	// Equal(t, parse(print t)) for the type definitions: the printed module parsed
+	// again must define, for every definition of the first parse, a type equal to
+	// it (both ways round) under the same reference identity
+	if y, pp := printGuard(m1); pp == "" {
+		if m3, e3, p3 := parseGuard(s.ID, y); e3 == nil && p3 == "" && m3 != nil {
+			byKey := map[string]types.Type{}
+			for _, t := range m3.TypeDefs {
+				byKey[c16RefKey(t, 0)] = t
+			}
+			for _, t := range m1.TypeDefs {
+				k := c16RefKey(t, 0)
+				back, ok := byKey[k]
+				if !ok {
+					r.Violate(fw.Violation{Key: "corpus-parse-back/definition-lost/" + s.ID, Input: text, What: fmt.Sprintf("the type definition %s (%s) has no counterpart of the same identity after print and parse", t, fw.Trunc(k, 120)), Observed: y})
+					return
+				}
+				if !check(t, back, k, c16RefKey(back, 0), "parse-back") {
+					return
+				}
+			}
+			r.TallyN("corpus", "type-definitions-parsed-back", len(m1.TypeDefs))
+		}
+	}
 	r.Eval(pairs)
 	distinct := map[string]bool{}
 	for _, k := range ka {
